@@ -119,16 +119,25 @@ structure Decoded where
   status : Option St     -- body decoded as google.rpc.Status in the response's media type
 
 /-- Failure before the first response byte, client still there: status, non-empty body carrying the message,
-    Status body in the negotiated type once bound and encodable, plain text otherwise. -/
+    Status body in the negotiated type once bound and encodable, plain text otherwise.
+    `none` = satisfied, `some why` = the clause that is violated. -/
+def failureWhy (e : RawErr) (bound : Bool) (negotiated : Bytes)
+    (status : Nat) (ct : Option Bytes) (body : Bytes) (dec : Decoded) : Option String :=
+  let st := convert e
+  if status != wantStatus e then some "wrong-http-status"
+  else if body.isEmpty then some "empty-body"
+  else if bound && encodable negotiated st then
+    (if ct != some negotiated then some "status-body-not-in-negotiated-content-type"
+     else if dec.status != some st then some "status-body-does-not-decode-to-code-message-details"
+     else none)
+  else
+    (if ct != some textPlain then some "text-error-not-text/plain"
+     else if !isInfix st.msg body then some "text-body-does-not-carry-the-message"
+     else if !bound && body != st.msg ++ [10] then some "unbound-error-not-plain-message-text"
+     else none)
+
 def failureOk (e : RawErr) (bound : Bool) (negotiated : Bytes)
     (status : Nat) (ct : Option Bytes) (body : Bytes) (dec : Decoded) : Bool :=
-  let st := convert e
-  status == wantStatus e &&
-  !body.isEmpty &&
-  (if bound && encodable negotiated st then
-     ct == some negotiated && dec.status == some st
-   else
-     ct == some textPlain && isInfix st.msg body) &&
-  (if !bound then body == st.msg ++ [10] else true)
+  (failureWhy e bound negotiated status ct body dec).isNone
 
 end GB.C10
